@@ -12,6 +12,7 @@ Values use the value_model representation; objects are unnamed records with orde
 from __future__ import annotations
 
 import math
+import re
 
 WS = b" \t\n\r"
 
@@ -172,6 +173,14 @@ class _P:
         v = float(text)
         if math.isinf(v):
             self.gray = "number outside double"
+        else:
+            # how a tokenizer treats an exponent beyond the double range is its own business even when the value is
+            # representable (0E875 is 0.0; 1e-400 underflows to 0.0): decided by the stub here
+            m = re.search(r"^-?([0-9.]+)[eE]([+-]?\d+)$", text)
+            if m:
+                mantissa_is_zero = not m.group(1).strip("0.")
+                if (mantissa_is_zero and abs(int(m.group(2))) > 308) or (v == 0.0 and not mantissa_is_zero):
+                    self.gray = "exponent outside the double range"
         return v
 
     def string(self):
